@@ -407,7 +407,7 @@ def run_property(mod, tier: str, seed: int, replay: str | None = None) -> int:
             for sname, cases in streams:
                 if hs != hashseeds[0] and sname in getattr(mod, "HASH_INDEPENDENT_STREAMS", ()):
                     continue
-                obs = run_impl(modname, cases, hashseed=hs)
+                obs = run_impl(modname, cases, hashseed=hs, batch=getattr(mod, "IMPL_BATCH", 2000))
                 assert len(obs) == len(cases), (sname, len(obs), len(cases))
                 all_cases.extend(cases)
                 all_obs.extend(obs)
